@@ -259,6 +259,9 @@ const S2_ADD: &[&str] = &[
     "foo*bar$tag=a",
     "||b1.com^$image",
     "foo*baz$tag=a",
+    // lands in the bucket of the two initial `/adv/track*` rules (already fused in scenario 4):
+    // optimize() after this add fuses a fused rule again
+    "/adv/track*frame",
 ];
 const S2_URLS: &[(&str, &str)] = &[
     ("https://b1.com/x", "script"),
@@ -272,6 +275,7 @@ const S2_URLS: &[(&str, &str)] = &[
     ("https://z.com/foo1baz", "script"),
     ("https://z.com/adv/track1pixel", "script"),
     ("https://z.com/adv/track1beacon", "script"),
+    ("https://z.com/adv/track1frame", "script"),
 ];
 
 #[derive(Clone, Copy, Debug, PartialEq)]
